@@ -220,21 +220,25 @@ fn check_history(d: &Driver, hist: &[u8], inc_ctx: &Context, inc_results: &[RunR
         }
     }
 
-    // (iii) save + replay through the real command runner, with failing lines interleaved
-    {
+    // (iii) save + replay through the real command runner: once with a failing line entered before
+    // every good line, once with the good lines alone (so that repeated inputs are adjacent in the
+    // recorded history)
+    for with_failing in [true, false] {
         agg.saves += 1;
         let mut runner = CommandRunner::<()>::new().enable_save(SessionHistory::default());
         let mut ctx = d.base.clone();
         let mut expected_saved = String::new();
         for i in 0..n {
             // a failing line before each good line
-            let bad = &d.failing[i % d.failing.len()];
-            let rb = run(&mut ctx, bad);
-            agg.executions += 1;
-            runner.push_to_history(bad, if rb.is_ok() { Ok(()) } else { Err(()) });
-            if rb.is_ok() {
-                agg.machinery.push(format!("failing line {bad:?} unexpectedly succeeded"));
-                return;
+            if with_failing {
+                let bad = &d.failing[i % d.failing.len()];
+                let rb = run(&mut ctx, bad);
+                agg.executions += 1;
+                runner.push_to_history(bad, if rb.is_ok() { Ok(()) } else { Err(()) });
+                if rb.is_ok() {
+                    agg.machinery.push(format!("failing line {bad:?} unexpectedly succeeded"));
+                    return;
+                }
             }
             let r = run(&mut ctx, lines[i]);
             agg.executions += 1;
